@@ -75,6 +75,10 @@ FAMILIES = {
     "dup_roots":      ("bb", [[], [1]], [2, 2, 1]),
     "svc_next_to_build": ("bsbb", [[], [], [2], [1, 3]], [4]),
     "svc_under_agg_next_to_build": ("bsab", [[], [], [2], [1, 3]], [4]),
+    # an aggregate over a service (which needs a build) AND a build, with a dependent above it: the two kinds of notices
+    # (Invalidated{Service} / Invalidated{Build}) travel through the aggregate independently and may overlap in watch mode
+    "mixed_agg_under_svc":   ("bsbas", [[], [1], [], [2, 3], [4]], [5]),
+    "mixed_agg_under_build": ("bsbab", [[], [1], [], [2, 3], [4]], [5]),
 }
 
 def families():
